@@ -160,7 +160,7 @@ def results(case, impl) -> dict:
     """(slot, method, args as str tuple, strict, passthrough) -> decoded python value / ('EXC', name)."""
     out = {}
     for st, v in zip(case["steps"], impl):
-        if st["op"] != "q":
+        if st["op"] != "q" or (isinstance(v, dict) and "bad" in v):
             continue
         key = (st["c"], st["m"], tuple(uncps(a) for a in st.get("a", [])), bool(st.get("s")), bool(st.get("p")))
         out[key] = pyval(v)
@@ -216,3 +216,15 @@ def is_exc(v) -> bool:
 
 def init_step(dst, recs, delim=":", strict=True):
     return {"op": "init", "dst": dst, "records": recs, "delim": cps(delim), "strict": strict}
+
+
+def case_records(case) -> list:
+    """Every protocol record mentioned by the construction / mutation steps of a case."""
+    out = []
+    for st in case["steps"]:
+        out.extend(st.get("records", []))
+        if "record" in st:
+            out.append(st["record"])
+        if st["op"] == "add_prefix":
+            out.append({"p": st["p"], "u": st["u"], "ps": st.get("ps", []), "us": st.get("us", [])})
+    return out
